@@ -54,6 +54,9 @@ func c07Exec(op string) string {
 	case "vfp", "exists":
 		sep := c.str()
 		m := c.mapVal()
+		if len(op)%2 == 0 {
+			internShared(m) // read-only queries: a Map may reference one sub-value from several places
+		}
 		path := c.str()
 		subs := c.strList()
 		c.val() // pf table: answers of strconv for the model
@@ -95,6 +98,9 @@ func c07Exec(op string) string {
 		return showRes(vs, err)
 	case "vfp1":
 		m := c.mapVal()
+		if len(op)%2 == 0 {
+			internShared(m) // read-only queries: a Map may reference one sub-value from several places
+		}
 		path := c.str()
 		if c.err != nil {
 			return "bad-op " + c.err.Error()
@@ -407,10 +413,10 @@ func c07Gen(r *Rng, n int) []string {
 			}
 			ms := enc(m)
 			ops = append(ops, fmt.Sprintf("vfp %s %s %s %s %s %d", encStr(sep), ms, encStr(path), encStrList(subs), pfTable(sep, subs), arr))
-			if r.P(25) {
+			if r.P(50) {
 				ops = append(ops, fmt.Sprintf("vfp1 %s %s", ms, encStr(path)))
 			}
-			if r.P(25) {
+			if r.P(35) {
 				ops = append(ops, fmt.Sprintf("exists %s %s %s %s %s", encStr(sep), ms, encStr(path), encStrList(subs), pfTable(sep, subs)))
 			}
 		}
